@@ -50,11 +50,17 @@ def strategy_(draw, tier):
         env["XDG_DATA_HOME"] = [v for v in vols if v != "/home"][0] + "/xdg" \
             if [v for v in vols if v != "/home"] else home + "/xdg"
     fb = draw(st.sampled_from([None, None, "1", "0"]))
+    # "ro" scenario: the directory holding an argument does not let the user change its entries
+    # (no write permission -> EACCES, or append-only -> EPERM on removal); link(2) out of it and
+    # reads still work.  No home fallback then, so every move is a same-volume rename.
+    ro = draw(st.sampled_from([None] * 6 + ["ro", "append"]))
     # "xdev" scenario: the home fallback is enabled both ways and the volume trash directories of
     # every non-home volume are unusable, so entries there are trashed by cross-device copy+delete
-    xdev = bool(vols) and draw(st.integers(0, 6)) == 0
+    xdev = bool(vols) and draw(st.integers(0, 6)) == 0 and ro is None
     if xdev:
         fb = "1"
+    if ro:
+        fb = None
     if fb is not None:
         env["TRASH_ENABLE_HOME_FALLBACK"] = fb
     workdirs = [home + "/w", "/data"] + [v + "/d" for v in vols if v != "/home"]
@@ -171,6 +177,11 @@ def strategy_(draw, tier):
             else:
                 nodes += pair[:1]
     opts = list(draw(st.sampled_from(OPTSETS)))
+    ro_dirs = {}
+    if ro:
+        if "--home-fallback" in opts:
+            opts = []
+        ro_dirs = {draw(st.sampled_from(sorted(set(e.rsplit("/", 1)[0] for e in used)) or ["/data"])): ro}
     if xdev:
         opts = ["--home-fallback"] + draw(st.sampled_from([[], ["-v"]]))
     if "--trash-dir" in opts:
@@ -182,7 +193,7 @@ def strategy_(draw, tier):
     spec = {"vols": vols, "nodes": nodes, "env": env, "uid": uid, "cwd": cwd,
             "now": "2021-03-04T05:06:07", "umask": draw(st.sampled_from([0o022, 0o077, 0]))}
     return {"spec": spec, "opts": opts, "files": files, "meta": metas, "stdin": stdin,
-            "layout": lay, "xdev": xdev}
+            "layout": lay, "xdev": xdev, "ro_dirs": ro_dirs}
 
 
 def strategy(tier):
@@ -275,7 +286,8 @@ def run_case(case):
     spec = case["spec"]
     sandbox.build_world(spec)
     before = sandbox.snapshot()
-    res = runner.run(spec, "trash-put", case["opts"] + case["files"], stdin=case["stdin"])
+    plan = {"ro_dirs": case["ro_dirs"]} if case.get("ro_dirs") else None
+    res = runner.run(spec, "trash-put", case["opts"] + case["files"], stdin=case["stdin"], plan=plan)
     after = sandbox.snapshot()
     if res.code == 98 or res.signal is not None:
         out.fail("did_not_terminate", "trash-put exceeded the operation budget / was killed "
@@ -290,10 +302,12 @@ def run_case(case):
     out.classes.append("opts:" + optclass(case["opts"]))
     out.classes.append("layout:" + case["layout"])
     out.classes.append("xdev_fallback:%s" % case.get("xdev", False))
+    out.classes.append("ro_dir:%s" % ("+".join(sorted(case.get("ro_dirs", {}).values())) or "no"))
     out.classes.append("exit:%d" % res.code)
     if nontrivial:
         out.key = [[m["kind"], m["spelling"], m["name_class"], s] for (a, s), m in
-                   zip(states, case["meta"])] + [case["layout"], optclass(case["opts"]), case.get("xdev", False)]
+                   zip(states, case["meta"])] + [case["layout"], optclass(case["opts"]), case.get("xdev", False),
+                                                 "+".join(sorted(case.get("ro_dirs", {}).values()))]
         out.sample = {"cwd": spec["cwd"], "argv": case["opts"] + case["files"],
                       "layout": case["layout"], "states": states, "exit": res.code}
     return out
